@@ -141,7 +141,7 @@ impl<'a> Gen<'a> {
     }
 
     fn words(&mut self, multibyte: bool, maxw: usize) -> String {
-        let n = self.rng.range(0, maxw);
+        let n = if maxw > 3 { self.rng.range(maxw / 2, maxw) } else { self.rng.range(0, maxw) };
         let mut v = Vec::new();
         for _ in 0..n {
             if multibyte && self.rng.chance(1, 4) {
@@ -166,7 +166,10 @@ impl<'a> Gen<'a> {
                 format!("{} {}", tok, ws.join(" ")).trim_end().to_string()
             }
             None => {
-                let w = self.words(multibyte, 3);
+                // one line in twelve is long enough to wrap over several rows in side-by-side mode
+                // (the token stays at the start, i.e. in the first row)
+                let maxw = if self.rng.chance(1, 12) { self.rng.range(12, 45) } else { 3 };
+                let w = self.words(multibyte, maxw);
                 let indent = *self.rng.pick(&["", "", "  ", "    "]);
                 format!("{}{} {}", indent, tok, w).trim_end().to_string()
             }
